@@ -78,6 +78,13 @@ theorem removeBidTemplate_matches :
     removeBidTemplateToleratesMissing = true ∧
     updateSidecarTemplateGuard = ["$1.Order != nil", "$1.State.IsTerminal()"] := by decide
 
+/-- What the RPC server does around the negotiators (round 7): `CancelSidecar` hands the negotiator the state CANCELED
+(the model's `cancelRPC` runs the finalization branch with `sCanceled`, which is what makes it notify the other side),
+and `DB.Sidecars` - which `Start` resumes from and `setTicketStateForOrder` cancels/completes through - skips the
+nested bid-template bucket WITHOUT ending the iteration, so a ticket is found whatever its random ID is (the model's
+`restartParty`/`completeRPC` see the stored ticket unconditionally). -/
+theorem rpc_store_match : cancelSidecarHandsCanceled = true ∧ sidecarsSkipsNestedBucket = true := by decide
+
 theorem finReturns_true : finReturns = true := by decide
 
 /-! ## case selection in closed form (both tickets non-nil) -/
